@@ -15,7 +15,8 @@ class Sink:
 
     def __init__(self, where: str, exps: Optional[Dict[str, object]] = None, dec: Optional[int] = 0,
                  needs: Sequence[str] = (), fn: Optional[str] = None, sign: Optional[int] = None,
-                 allow_zero: bool = False, forbids: Sequence[str] = (), note: str = "", deps_only: bool = False):
+                 allow_zero: bool = False, forbids: Sequence[str] = (), note: str = "", deps_only: bool = False,
+                 skip_top: bool = False, data_needs: Sequence[str] = (), data_forbids: Sequence[str] = ()):
         self.where = where
         self.exps = {k: (v if v == "any" else Fraction(v)) for k, v in (exps or {}).items()}
         self.dec = dec
@@ -26,6 +27,9 @@ class Sink:
         self.allow_zero = allow_zero
         self.note = note
         self.deps_only = deps_only
+        self.data_needs = tuple(data_needs)      # atoms that must be factors of the value itself (not only control dependences)
+        self.data_forbids = tuple(data_forbids)
+        self.skip_top = skip_top   # other stores of unknown shape into the same column (initialisation, generic copies) are ignored
 
 
 class Case:
@@ -142,13 +146,15 @@ def run_cases(ctx, rule: str, cases: List[Case], aspects=("units", "base", "par"
                     continue
                 if s is sh.TOP:
                     # a store of a pure default literal next to the real one is tolerated only if it has no deps
-                    if not deps_of(v):
+                    if not deps_of(v) or sink.skip_top:
                         continue
                     raise AnalysisError(f"{case.fq} [{case.name}]: shape of {sink.where} became undecidable (TOP)")
                 for m in s:
                     src = [a for a in m.facs if not a.startswith(("opt.", "lookup."))]
                     if not src:
                         continue  # literal-only term (defaults such as RATE_A = 100.)
+                    if sink.where.startswith("store:") and set(src) <= {sink.where[6:]}:
+                        continue  # the column's own previous content (dtype-preserving re-assignment of the table)
                     n_mono += 1
                     for sym in tracked:
                         if sink.exps.get(sym) == "any":
@@ -162,6 +168,18 @@ def run_cases(ctx, rule: str, cases: List[Case], aspects=("units", "base", "par"
                             problems.append(f"term {m!r}: decimal scale 1e{m.dec} (required 1e{sink.dec})")
                         elif "sign" in aspects and sink.sign is not None and m.sign != sink.sign:
                             problems.append(f"term {m!r}: sign {m.sign} (required {sink.sign})")
+            datafacs = set()
+            for v, st in got:
+                s_ = shape_of(v)
+                if s_ is not sh.TOP and not sh.is_bad(s_):
+                    for m in s_:
+                        datafacs |= set(m.facs)
+            for need in sink.data_needs:
+                if need not in datafacs:
+                    problems.append(f"value is not computed from {need}")
+            for fb in sink.data_forbids:
+                if fb in datafacs:
+                    problems.append(f"value is computed from {fb}")
             if n_mono == 0 and not sink.allow_zero:
                 problems.append("no term with source atoms reaches the sink")
             for need in (sink.needs if "needs" in aspects else ()):
